@@ -14,7 +14,8 @@ TITLE = "Token-aware plans put live local replicas first without losing hosts"
 LEVEL = "exploration"
 ENGINE = "models"
 TECHNIQUE = ("property-based testing (Hypothesis) plus an exhaustive host-state product against a reference model: replicas from the independent "
-             "placement reference (spec.placement), the wrapped plan from a twin child policy driven in lock step")
+             "placement reference (spec.placement), the wrapped plan from a twin child policy driven in lock step; plans are also consumed lazily and "
+             "interleaved (several generators alive at once), the interleaving being part of the case")
 RULE = ("A case is a ring description (C26 format: hosts with dc/rack/tokens, keyspaces), a per-host state (up: live in the child policy and is_up True; down: "
         "on_down delivered, is_up False; added-unmarked: live in the child policy but is_up still None -- the window between Cluster.on_add and "
         "Host.set_up, permanent when the pool could not be created; upped-unmarked: same after on_up, is_up False), a child policy (RoundRobin, "
@@ -24,8 +25,16 @@ RULE = ("A case is a ring description (C26 format: hosts with dc/rack/tokens, ke
         "of a key are those of the keyspace's current replication).  The real "
         "TokenAwarePolicy over the real Metadata is compared with R + rest where R are the reference replicas that are up and LOCAL "
         "and rest is the plan of a twin child policy (same events, same pinned randint/shuffle) minus R.  Part state-product enumerates all 4^h host states "
-        "x children x shuffle x strategies for two fixed rings.  Non-trivial: a routed query with >= 2 replicas of which at least one is "
-        "down, unmarked or not LOCAL.")
+        "x children x shuffle x strategies for two fixed rings.  Overlap steps: 2-3 plans (the same statement again -- a hot partition -- or "
+        "independent routed/unrouted statements) are alive at once, as the lazily consumed plans of concurrent requests are; a list of plan indices "
+        "advances them one host at a time (the first advance starts a plan, which is when shuffle_replicas shuffles, each start with its own pinned "
+        "shuffle seed), then all are drained; host states are constant inside the step.  The twin's plan is taken at the moment the policy under test "
+        "asks its child for one, which also splits each plan into replica part and rest: demanded are no repeat, nothing lost, nothing extra, "
+        "replica part within R, rest = twin order minus replica part; without shuffle also replica part = R in order (with shuffle a replica moved by a "
+        "concurrent in-place shuffle may be deferred to the rest: labelled, not failed).  The state-product part has two such steps per case.  "
+        "Non-trivial: a routed query with >= 2 replicas of which at least one is "
+        "down, unmarked or not LOCAL; or an overlap step in which a plan with >= 2 live local replicas is part-way through when another plan over the "
+        "same keyspace and token range (the same cached replica list) is started.")
 ASSUMPTIONS = [
     "cassandra.policies.randint / shuffle are substituted by functions that are part of the case, identically for the policy under test and its twin",
     "replicas are judged against spec.placement (Cassandra's algorithm; with transient replication its FULL replicas, which is what the driver routes to); "
@@ -33,6 +42,9 @@ ASSUMPTIONS = [
     "the order inside R is demanded exactly for SimpleStrategy (ring walk order); for NetworkTopologyStrategy, whose order differs between Cassandra "
     "versions, R must keep the relative order of Metadata.get_replicas",
     "host states are those the cluster produces: Cluster.on_add/on_up notify the policies before Host.set_up() runs (after pool creation)",
+    "overlapping plans are interleaved at whole next() calls (the policies hold no lock while a plan is suspended, a request advances its plan only "
+    "between attempts); during an overlap step the child's make_query_plan is wrapped on the instance only to learn when it is called, the twin "
+    "supplies the expected wrapped plan; 'replicas first' is not demanded of a shuffling policy whose plan was overtaken by another plan's shuffle",
 ]
 
 STATES = ("up", "down", "added-unmarked", "upped-unmarked")
@@ -90,6 +102,182 @@ class _World(object):
             raise HarnessError("unknown state %r" % (state,))
 
 
+def _overlap_step(step, case, w, ctx, queried, altered):
+    """Several query plans alive at once: a plan is a lazy generator that the request consumes host by host as it fails over, so
+    the plan of one request is part-way through when another request asks for its own.  step["overlap"] lists the plans
+    ({"q", "wks", "sseed"}: sseed pins the shuffle this plan's start performs), step["ops"] is the interleaving: each entry advances
+    that plan by one host (the first advance starts it); afterwards every plan is drained in index order.  Host states do not change
+    inside the step.  The wrapped policy's plan belonging to each token-aware plan is taken from the twin at the very moment
+    the policy under test asks its child for one (that moment also splits the plan into its replica part and its rest)."""
+    from cassandra.query import SimpleStatement
+    ring, hosts = w.ring, w.ring.hosts
+    tokens = [t for t, _e in ring.ref_ring]
+    child = case["child"]
+    shuffle = bool(case.get("shuffle"))
+    specs = step["overlap"]
+    n = len(specs)
+    limit = 3 * len(hosts) + 5
+    plans = []
+    for spec in specs:
+        q, wks = spec.get("q"), spec.get("wks")
+        rk, query = None, None
+        if q is not None:
+            rk = None if q.get("key") is None else bytes.fromhex(q["key"])
+            query = SimpleStatement("SELECT v FROM t WHERE k = 0", routing_key=rk, keyspace=q.get("ks"))
+        eff_ks = (q.get("ks") if q and q.get("ks") else None) or wks
+        routed = rk is not None and eff_ks is not None
+        mode = "routed" if routed else ("no-statement" if q is None else ("no-routing-key" if rk is None else "no-keyspace"))
+        plans.append({"query": query, "wks": wks, "rk": rk, "ks": eff_ks, "routed": routed, "mode": mode, "sseed": spec.get("sseed", 0),
+                      "gen": None, "taken": [], "done": False, "broken": False, "child_calls": [], "di": None,
+                      "interrupts": []})
+    current = [None]
+    real_child = w.ta._child_policy
+    inner = real_child.make_query_plan
+
+    def spy(keyspace=None, query=None):
+        p = current[0]
+        if p is not None:
+            p["child_calls"].append((len(p["taken"]), list(w.twin.make_query_plan(keyspace, query))))
+        return inner(keyspace, query)
+
+    def advance(p):
+        if p["done"] or p["broken"]:
+            return
+        current[0] = p
+        try:
+            if p["gen"] is None:
+                if p["routed"]:
+                    queried.add(p["ks"])
+                    with ctx.driver(["C22.metadata.get_replicas"]):
+                        p["di"] = list(ring.metadata.get_replicas(p["ks"], p["rk"]))
+                    if p["di"] is None:
+                        p["broken"] = True
+                        return
+                p["interrupts"] = [o for o in plans if o is not p and o["taken"] and not o["done"]]
+                with ctx.driver(["C22.plan", p["mode"], "overlapping-plans"]):
+                    p["gen"] = w.ta.make_query_plan(p["wks"], p["query"])
+                if p["gen"] is None:
+                    p["broken"] = True
+                    return
+            got = stop = False
+            with _ring.pinned_random(case.get("randint", 0), p["sseed"]):
+                with ctx.driver(["C22.plan", p["mode"], "overlapping-plans"]):
+                    try:
+                        p["taken"].append(next(p["gen"]))
+                        got = True
+                    except StopIteration:
+                        stop = True
+            if stop:
+                p["done"] = True
+            elif not got:
+                p["broken"] = True
+            elif len(p["taken"]) > limit:
+                p["broken"] = True
+                ctx.fail(["C22.overlap.unbounded", p["mode"]], "a plan over %d hosts yielded more than %d hosts" % (len(hosts), limit))
+        finally:
+            current[0] = None
+
+    real_child.make_query_plan = spy
+    try:
+        for k in step.get("ops", ()):
+            advance(plans[k % n])
+        for p in plans:
+            for _ in range(limit + 2):
+                if p["done"] or p["broken"]:
+                    break
+                advance(p)
+    finally:
+        try:
+            del real_child.make_query_plan
+        except AttributeError:
+            pass
+
+    def range_of(p):
+        import bisect
+        at = bisect.bisect_left(tokens, ring.key_token(p["rk"]))
+        return (p["ks"], at % len(tokens))
+
+    ctx.label("overlap:step", "overlap:plans=%d" % n)
+    nontrivial = False
+    shared = {}
+    for p in plans:
+        if p["routed"] and p["ks"] in ring.keyspaces and tokens:
+            shared.setdefault(range_of(p), []).append(p)
+    for p in plans:
+        if p["broken"] or not p["done"]:
+            continue
+        try:
+            pi = [ring.index(h) for h in p["taken"]]
+        except KeyError:
+            ctx.fail(["C22.foreign-host"], "plan contains an unknown host: %r" % (p["taken"],))
+            continue
+        if len(p["child_calls"]) != 1:
+            ctx.fail(["C22.overlap.child-plan-calls", p["mode"], str(min(len(p["child_calls"]), 2))],
+                     "the wrapped policy was asked for %d plans by one token-aware plan" % len(p["child_calls"]))
+            continue
+        split, tw = p["child_calls"][0]
+        ti = [ring.index(h) for h in tw]
+        if not p["routed"] or p["ks"] not in ring.keyspaces or not tokens:
+            sub = p["mode"] if not p["routed"] else "unknown-keyspace"
+            ctx.check(pi == ti, ["C22.passthrough", sub, "overlapping-plans"],
+                      "%s: token-aware plan %r differs from the wrapped policy's plan %r" % (sub, pi, ti))
+            ctx.label("overlap:q:" + sub)
+            continue
+        cls, opts = ring.strategy(p["ks"])
+        try:
+            refl = ref.full_endpoints(ring.ref_ring, ring.topology, cls, opts, ring.key_token(p["rk"]))
+        except ref.ReferenceDisagreement as e:
+            raise HarnessError("reference self-check failed: %s" % e)
+        di = [ring.index(h) for h in p["di"]]
+        md_differs = set(di) != set(refl) or len(set(di)) != len(di)
+        mdf = ["metadata-replicas-differ", altered.get(p["ks"], "keyspace-as-built")] if md_differs else []
+        tag = ["overlapping-plans"] + mdf
+        R = [i for i in refl if bool(hosts[i].is_up) and _model_local(child, ring.topology[i][0])]
+        Rset = set(R)
+        head, rest = pi[:split], pi[split:]
+        descr = "child=%r shuffle=%r ks=%r key=%s interleaving=%r plans=%r states=%r replicas(ref)=%r wrapped plan=%r token-aware plan=%r (first %d before the wrapped plan was asked for)" % (
+            child, shuffle, opts, p["rk"].hex(), step.get("ops"), [(o["ks"], o["rk"].hex() if o["rk"] else None) for o in plans],
+            [(i, hosts[i].is_up, ring.topology[i][0]) for i in range(len(hosts))], refl, ti, pi, split)
+        failed = False
+        if len(set(pi)) != len(pi):
+            failed = True
+            ctx.fail(["C22.repeat"] + tag + ["shuffle" if shuffle else "ordered"], "a host is repeated: " + descr)
+        expected = Rset | set(ti)
+        for i in sorted(expected - set(pi)):
+            failed = True
+            ctx.fail(["C22.lost"] + tag, "host %d is left out: %s" % (i, descr))
+        for i in sorted(set(pi) - expected):
+            failed = True
+            ctx.fail(["C22.extra"] + tag, "host %d is neither in the wrapped plan nor a live local replica: %s" % (i, descr))
+        if not failed and not set(head) <= Rset:
+            failed = True
+            ctx.fail(["C22.replicas-first"] + tag + ["non-replica-before-wrapped-plan"],
+                     "hosts %r come before the wrapped plan but are not live local replicas %r: %s" % (head, R, descr))
+        if not failed:
+            want_rest = [i for i in ti if i not in head]
+            if rest != want_rest:
+                failed = True
+                ctx.fail(["C22.rest-order"] + tag, "after the replicas the plan continues %r, the wrapped policy's order is %r: %s" % (rest, want_rest, descr))
+        if not failed and not shuffle and not md_differs:
+            # without shuffling nothing is mutated: overlapping plans are as good as sequential ones
+            if set(head) != Rset:
+                ctx.fail(["C22.replicas-first"] + tag + ["ordered"], "the first %d hosts %r are not the live local replicas %r: %s" % (split, head, R, descr))
+            elif cls.endswith("SimpleStrategy") and head != R:
+                ctx.fail(["C22.replica-order"] + tag + ["simple"], "live local replicas come as %r, ring order is %r: %s" % (head, R, descr))
+        elif not failed and set(head) != Rset:
+            ctx.label("overlap:live-local-replica-deferred-to-wrapped-plan")
+        mates = shared.get(range_of(p), [])
+        same_list = len(mates) >= 2
+        ctx.label("overlap:q:routed", "overlap:R=%d" % min(len(R), 3))
+        if same_list:
+            ctx.label("overlap:same-replica-list")
+        if len(R) >= 2 and any(o is not p and any(x is p for x in o["interrupts"]) for o in mates):
+            # another plan over the same cached replica list was started while this one was part-way through
+            nontrivial = True
+            ctx.label("overlap:shared-list-restarted-mid-plan", "overlap:shared-list-restarted-mid-plan:" + ("shuffle" if shuffle else "ordered"))
+    return nontrivial
+
+
 def interpret(case, ctx):
     from cassandra.query import SimpleStatement
     with _ring.pinned_random(case.get("randint", 0), case.get("shuffle_seed", 0)):
@@ -127,6 +315,10 @@ def interpret(case, ctx):
                 if step["host"] < len(hosts):
                     with ctx.driver(["C22.event", step["ev"]]):
                         w.apply_state(step["host"], step["ev"])
+                continue
+            if "overlap" in step:
+                if _overlap_step(step, case, w, ctx, queried, altered):
+                    nontrivial = True
                 continue
             q = step.get("q")
             wks = step.get("wks")
@@ -272,6 +464,10 @@ def product_cases(chunk):
             for ks in ("s2", "n2", "s3"):
                 for k in _KEYS[:2] if ks != "s2" else _KEYS:
                     steps.append({"q": {"key": k.hex(), "ks": ks}, "wks": None})
+            # two requests for the same partition alive at once: the second plan starts after the first has yielded one host / two hosts
+            for ks, ops in (("s3", [0, 1, 0, 1]), ("n2", [0, 0, 1, 1, 0])):
+                steps.append({"overlap": [{"q": {"key": _KEYS[0].hex(), "ks": ks}, "wks": None, "sseed": len(states) + j} for j in (0, 1)],
+                              "ops": ops})
             # the replication of keyspaces that have been queried is altered, then they are queried again
             steps.append({"alter": "s2", "options": {"class": "SimpleStrategy", "replication_factor": "1"}})
             steps.append({"alter": "n2", "options": _ALTERED_NTS[chunk["ring"]]})
@@ -329,11 +525,27 @@ def s_case(max_dcs):
                                            "options": st.one_of(nts, simple, nts, simple, st.none())})
             routed = st.fixed_dictionaries({"q": st.fixed_dictionaries({"key": st.sampled_from(keys).map(bytes.hex),
                                                                          "ks": st.sampled_from(sorted(kss))}), "wks": st.none()})
-            steps = draw(st.lists(st.one_of(routed, routed, routed, qstep, ev, alter), min_size=1, max_size=6))
+            # overlapping plans: requests consume their plans lazily, so several plans are alive at once; ops is the interleaving
+            sseed = st.integers(0, 7)
+
+            def oplan(qs):
+                return st.tuples(qs, sseed).map(lambda t: dict(t[0], sseed=t[1]))
+
+            same = st.tuples(routed, st.lists(sseed, min_size=2, max_size=3)).map(lambda t: [dict(t[0], sseed=x) for x in t[1]])
+            mixed = st.lists(oplan(st.one_of(routed, routed, qstep)), min_size=2, max_size=3)
+            overlap = st.fixed_dictionaries({"overlap": st.one_of(same, same, mixed), "ops": st.lists(st.integers(0, 2), max_size=8)})
+            steps = draw(st.lists(st.one_of(routed, routed, routed, qstep, ev, alter, overlap), min_size=1, max_size=6))
             if draw(st.integers(0, 2)) == 0:
                 # by construction: query a keyspace, alter its replication, query it again with the same key
                 q0 = draw(routed)
                 steps = steps + [q0, {"alter": q0["q"]["ks"], "options": draw(st.one_of(nts, simple))}, q0]
+            if draw(st.integers(0, 3)) == 0:
+                # by construction: a hot partition -- the same statement planned again while earlier plans are part-way through
+                q0 = draw(routed)
+                k = draw(st.integers(2, 3))
+                first = draw(st.integers(1, 3))
+                steps = steps + [{"overlap": [dict(q0, sseed=draw(sseed)) for _ in range(k)],
+                                  "ops": [0] * first + draw(st.lists(st.integers(0, k - 1), min_size=1, max_size=6))}]
             order = draw(st.permutations(list(range(h))))
             return {"ring": {"partitioner": "murmur3", "hosts": hosts, "keyspaces": kss}, "child": child,
                     "shuffle": draw(st.booleans()), "shuffle_seed": draw(st.integers(0, 7)), "randint": draw(st.integers(0, 7)),
